@@ -1115,7 +1115,13 @@ class _Encoder:
                 walk(c, path + [i])
         for i, n in enumerate(self.dump["roots"]):
             walk(n, [i])
-        style = self.pick("referents", ["rbx", "int", "mixed"])
+        style = self.pick("referents", ["rbx", "int", "mixed", "lookalike"])
+        # "lookalike": referents are arbitrary unique strings compared verbatim (xml.md/Ref), so strings that differ only in
+        # padding, letter case or leading zeros are DIFFERENT referents; only the exact text "null" is reserved
+        look = ["7", "7 ", " 7", " 7 ", "07", "007", "7.0", "+7", "rbx7", "RBX7", "Rbx7", "NULL", "Null", "null ", " null", "nul", "a", "A", "a ", " a",
+                "RBX00000000000000000000000000000000", "rbx00000000000000000000000000000000", "0", "-0", "00", "", "  "]
+        if r is not None:
+            r.shuffle(look)
         used = {"null"}
         self.referent = {}
         ints = list(range(len(nodes) * 3 + 3))
@@ -1126,6 +1132,10 @@ class _Encoder:
                 st = style if style != "mixed" else (r.choice(["rbx", "int", "word"]) if r else "rbx")
                 if st == "int":
                     ref = str(ints.pop()) if r is not None else str(k)
+                elif st == "lookalike":
+                    ref = look.pop() if look else "L%d " % ints.pop()
+                    if ref.strip() == "" :
+                        continue    # an empty / blank referent attribute is not "a unique string" anybody could refer to
                 elif st == "word":
                     ref = r.choice(["ref-%d", "R%d", "%d:x", "Item %d", "núll%d"]) % r.randrange(10**6)
                 else:
